@@ -21,6 +21,8 @@ import z3
 
 from symx.core import Inconclusive, is_sym
 
+from props import alias_common as _alias
+
 ID = "C04"
 GENS = ["gen_dfs", "gen_wilson", "gen_percolation", "gen_dfs_percolation", "gen_prim"]
 
@@ -461,6 +463,7 @@ def jobs(tier, seed):
     pick = [j for j in out if j["seed"] is not None and j["seed"] in (0, 42)][:: (4 if q else 2)]
     out.append(dict(h="xproc", cfgs=[{k: v for k, v in j.items() if k != "h"} for j in pick], hashseeds=[1, 4242] if q else [0, 1, 7, 4242], max_seconds=3000))
     out.sort(key=lambda j: 0 if j["h"] == "xproc" else 1)
+    out.append(dict(_alias.ALIAS_JOB))  # results must not alias library state, arguments or each other (props/alias_common.py)
     out[0]["twin"] = True
     return out
 
@@ -473,6 +476,7 @@ def warmup():
 
 HARNESSES = {"pure": dict(run=_run_pure, replay=_replay_pure, real_sig=_real_sig, pinned=_pinned, patch=dict(np_modules=[], stub_ascii=False)),
              "xproc": dict(run=_run_xproc, replay=_replay_xproc, patch=dict(np_modules=[], stub_ascii=False), validate_every=0)}
+HARNESSES["alias"] = _alias.alias_harness("C04")
 
 MANIFEST = dict(
     technique="symbolic execution of the real code under a symbolic RNG-state model (seeded RNGs delegate to the real generators, a draw from an "
@@ -495,3 +499,5 @@ META = dict(
              "the on-disk cache (C11)"],
     assumptions=["np.random.RandomState(s) reproduces the global numpy RNG after np.random.seed(s); random.Random(s) reproduces random.seed(s) (validated per run: model output == real output)"],
 )
+
+META.setdefault("degenerate", {})["alias"] = _alias.ALIAS_META
